@@ -198,8 +198,22 @@ func (r *e1Run) appendEntry(typ raft.LogType, msg *robust.Message) *logEntry {
 		msg.UnixNano = r.now().UnixNano()
 		*useProtobuf = r.nodes[0].proto // the leader's API encodes the message
 		e.Data = encodeMsg(msg)
-		// decode as the nodes will
-		m := robust.NewMessageFromBytes(e.Data, robust.IdFromRaftIndex(idx))
+		// what the oracles know about the entry is what was proposed (not what the code under test decodes
+		// from the stored bytes): the id defaults to the entry's position
+		m := *msg
+		if m.Id.Id == 0 {
+			m.Id.Id = robust.IdFromRaftIndex(idx)
+		}
+		if dm := robust.NewMessageFromBytes(e.Data, robust.IdFromRaftIndex(idx)); dm.Id != m.Id || dm.Session != m.Session || dm.Type != m.Type || dm.Data != m.Data || dm.ClientMessageId != m.ClientMessageId || dm.Revision != m.Revision || dm.RemoteAddr != m.RemoteAddr || dm.UnixNano != m.UnixNano {
+			dprop := "C01"
+			switch {
+			case dm.ClientMessageId != m.ClientMessageId:
+				dprop = "C10"
+			case dm.Revision != m.Revision:
+				dprop = "C16"
+			}
+			r.violate(dprop, "entry-decoded-differently", "entry-decoded-differently", fmt.Sprintf("index %d: the stored entry decodes to %+v, proposed was %+v (a replica applying it acts on something else than what was committed)", idx, dm, m))
+		}
 		e.Msg = &m
 		e.TS = m.Timestamp()
 	}
